@@ -50,6 +50,7 @@ class Spec:
         self.planning = None  # list of planning variables
         self.interp = {}  # name -> interpolation mode
         self.dynpar = []  # names of dynamic parameters
+        self.ipopt = None  # extra IPOPT options (e.g. {"max_iter": 1} to force an unsuccessful solve)
         self.delays = []  # (path expression, delayed variable name, duration): y = delay(expr, tau)
         self.__dict__.update(kw)
 
@@ -306,6 +307,8 @@ def syn_class(mixins=()):
         def solver_options(self):
             o = super().solver_options()
             o["ipopt"] = dict(o.get("ipopt", {}), print_level=0, sb="yes", tol=1e-10)
+            if self.s.ipopt:
+                o["ipopt"].update(self.s.ipopt)
             o["print_time"] = False
             return o
 
